@@ -43,6 +43,7 @@ HIST_ALPHABET = [
     "parse.docstring/google_returns_only",
     "parse.function/numpydoc_returns_only->emit.class",
     "parse.function(live)/returns_without_rtype->emit.rest",
+    "to_code/fails_inside_def",
 ]
 
 
@@ -96,7 +97,7 @@ class C12(core.Check):
     level = "exploration"
     rule = ("(a) the conversion battery is executed in a fresh interpreter for every hash seed of a covering set (all k! "
             "iteration orders of the undocumented-name sets witnessed, k<=3 quick / k<=4 thorough) plus random seeds and "
-            "all digests are compared with seed 0; (b) every sequence with repetition over 19 conversions up to length 2 (thorough 3), and of length 3 (thorough 4) over the 7 core conversions, runs in a child forked from a pristine process and each call is compared with its solo output; "
+            "all digests are compared with seed 0; (b) every sequence with repetition over 20 conversions up to length 2 (thorough 3), and of length 3 (thorough 4) over the 7 core conversions, runs in a child forked from a pristine process and each call is compared with its solo output; "
             "non-trivial = a (conversion, iteration-order) pair whose order differs from seed 0's, or a sequence of "
             "length >= 2; distinct = distinct (conversion, order) pairs and distinct sequences")
     assumptions = ("PYTHONHASHSEED influences doctrans only through set / dict-key-view iteration order of parameter names",
